@@ -152,7 +152,9 @@ Denotes(bytes, s, bits, V(_)) ==
             \/ d.mn = "INT" /\ Len(d.ops) = 1 /\ d.ops[1].b = LE(V(o[1]), 1)
             \/ d.mn = "INT3" /\ V(o[1]) = 3
        [] mn \in {"RET", "RETN", "RETF"} /\ k = 1 ->
-            d.mn = (IF mn = "RETF" THEN "RETF" ELSE "RET") /\ Len(d.ops) = 1 /\ d.ops[1].b = LE(V(o[1]), 2)
+            /\ d.mn = (IF mn = "RETF" THEN "RETF" ELSE "RET")
+            /\ \/ Len(d.ops) = 1 /\ d.ops[1].b = LE(V(o[1]), 2)
+               \/ Len(d.ops) = 0 /\ V(o[1]) = 0             \* RET 0 releases nothing: same as RET
        [] mn = "LGDT" /\ k = 1 -> d.mn = "LGDT" /\ OpEq(d.ops[1], o[1], V)
        [] OTHER -> FALSE
 
